@@ -79,6 +79,10 @@ type HarnessRun struct {
 	inexact    int64
 	fpConvOOR  int64
 	xcount     int64
+	natSamples    []*Violation // models of completed paths for native differential replay
+	validateWant  int
+	validateEvery int64
+	completedSeen int64
 	fallbacks  map[string]int64
 	steps      int64
 	maxDepth   int
@@ -857,6 +861,26 @@ func (r *HarnessRun) runPath(sol *Solver, prefix []int32, concrete map[string]in
 			p.violationNoAbort("locks-held-at-exit", strings.Join(names, ","))
 		}
 	}()
+	// translator validation: keep the solver's model of some completed paths
+	// so that they can be re-run natively (same inputs => same input sequence,
+	// no assertion failure)
+	if reason == "completed" && concrete == nil && r.native && r.validateWant > 0 && len(p.inputs) > 0 {
+		r.mu.Lock()
+		r.completedSeen++
+		take := len(r.natSamples) < r.validateWant && (r.completedSeen <= 2 || r.completedSeen%r.validateEvery == 0)
+		r.mu.Unlock()
+		if take {
+			func() {
+				defer func() { recover() }()
+				if p.check(nil, false) == rSat {
+					in, order := p.model()
+					r.mu.Lock()
+					r.natSamples = append(r.natSamples, &Violation{Harness: r.name, Property: r.prop, Params: r.params, Inputs: in, Order: order, Pkg: r.pkg})
+					r.mu.Unlock()
+				}
+			}()
+		}
+	}
 	sol.endPath()
 
 	r.mu.Lock()
